@@ -24,8 +24,9 @@ impl PixelDataReader for UncompressedAdapter {
             .raw_pixel_data()
             .context(decode_error::MissingAttributeSnafu { name: "Pixel Data" })?;
 
+        let frame_size = native_frame_size(src);
         for fragment in pixeldata.fragments {
-            dst.extend_from_slice(&fragment);
+            dst.extend_from_slice(without_padding(&fragment, frame_size));
         }
 
         Ok(())
@@ -42,9 +43,32 @@ impl PixelDataReader for UncompressedAdapter {
             .frame_pixel_data(frame)
             .context(decode_error::FrameRangeOutOfBoundsSnafu)?;
 
-        dst.extend_from_slice(frame.as_ref());
+        dst.extend_from_slice(without_padding(frame.as_ref(), native_frame_size(src)));
 
         Ok(())
+    }
+}
+
+/// The number of bytes of one frame in native form,
+/// if the necessary attributes are available.
+fn native_frame_size(src: &dyn PixelDataObject) -> Option<usize> {
+    let bytes_per_sample = (src.bits_allocated()? / 8) as usize;
+    Some(
+        src.cols()? as usize
+            * src.rows()? as usize
+            * src.samples_per_pixel()? as usize
+            * bytes_per_sample,
+    )
+}
+
+/// Remove the trailing padding byte of a fragment
+/// which holds a frame with an odd number of bytes.
+fn without_padding(fragment: &[u8], frame_size: Option<usize>) -> &[u8] {
+    match frame_size {
+        Some(frame_size) if frame_size % 2 == 1 && fragment.len() == frame_size + 1 => {
+            &fragment[..frame_size]
+        }
+        _ => fragment,
     }
 }
 
